@@ -24,6 +24,8 @@ def hb_rung_levels(grace_period, max_t, reduction_factor=None, rung_increment=No
         while v < max_t:
             out.append(v)
             v += rung_increment
+    if out and out[-1] >= max_t:  # a rounded level that hits max_t is not a rung level (all rung levels are < max_t)
+        out = out[:-1]
     return out
 
 
